@@ -618,17 +618,7 @@ mutual
       if aa.isOpOrSym || aa.isStr ['{'] then
         -- the verb: an operator, a symbol (maybe applied to arguments), or a function
         let verb : Res Node :=
-          if aa.isStr ['{'] then
-            (prog cfg t fuel ii true m).bind fun i2 body m2 =>
-              let b := oneOrList body
-              let i3 := skip cfg t i2 true
-              cexpect t i3 '}' m2 fun i4 =>
-                match fnArity b with
-                | .error e => .err e m2 (i3 - i2 + 1)
-                | .ok arity =>
-                  if argsAhead t i4 then
-                    (readFnArgs cfg t fuel i4 m2).bind fun i5 fa m3 => .ok i5 (mkCall b fa arity) m3 (i3 - i2 + 1)
-                  else .ok i4 (.fn b false [] arity false) m2 (i3 - i2 + 1)
+          if aa.isStr ['{'] then readFn cfg t fuel ii m
           else if aa.isSym && argsAhead t ii then
             (readFnArgs cfg t fuel ii m).bind fun i5 fa m3 => .ok i5 (mkCall aa fa fa.length) m3 1
           else .ok ii aa m 1
@@ -645,6 +635,22 @@ mutual
         let i' := skip cfg t i true
         .ok i' a m (i' - i + 1)
       else .ok i a m 1
+
+  /-- the part of `_factor` / `_expr` that reads a function after its `{`: the body (a program),
+      `}`, `get_fn_arity`, and an argument list if one follows -/
+  def readFn (cfg : Cfg) (t : Text) : (fuel : Nat) → (i : Nat) → PState → Res Node
+    | 0, _, _ => .outOfFuel
+    | fuel + 1, i, m =>
+      (prog cfg t fuel i true m).bind fun i2 body m2 =>
+        let b := oneOrList body
+        let i3 := skip cfg t i2 true
+        cexpect t i3 '}' m2 fun i4 =>
+          match fnArity b with
+          | .error e => .err e m2 (i3 - i2 + 1)
+          | .ok arity =>
+            if argsAhead t i4 then
+              (readFnArgs cfg t fuel i4 m2).bind fun i5 fa m3 => .ok i5 (mkCall b fa arity) m3 (i3 - i2 + 1)
+            else .ok i4 (.fn b false [] arity false) m2 (i3 - i2 + 1)
 
   /-- `_apply_adverbs(t, i, a, aa, arity, dyad, dyad_value)` -/
   def applyAdverbs (cfg : Cfg) (t : Text) : (fuel : Nat) → (i : Nat) → (a : Node) → (aa : List Char) → (arity : Nat) → (dyad : Bool) → (dv : Node) → PState → Res Node
@@ -737,17 +743,7 @@ mutual
             | (_, none) => .ok i2 v m2 1
           if a.isNone then .ok i1 a m1 1
           else if a.isStr ['{'] then
-            (prog cfg t fuel i1 true m1).bind fun i2 body m2 =>
-              let b := oneOrList body
-              let i3 := skip cfg t i2 true
-              cexpect t i3 '}' m2 fun i4 =>
-                match fnArity b with
-                | .error e => .err e m2 (i3 - i2 + 1)
-                | .ok arity =>
-                  if argsAhead t i4 then
-                    (readFnArgs cfg t fuel i4 m2).bind fun i5 fa m3 =>
-                      (adverbed i5 (mkCall b fa arity) m3).addSteps (i3 - i2 + 1)
-                  else (adverbed i4 (.fn b false [] arity false) m2).addSteps (i3 - i2 + 1)
+            (readFn cfg t fuel i1 m1).bind fun i2 f m2 => adverbed i2 f m2
           else if a.isSym then
             if argsAhead t i1 then
               (readFnArgs cfg t fuel i1 m1).bind fun i2 fa m2 =>
@@ -790,7 +786,7 @@ end
 /-! ## entry points -/
 
 /-- fuel that is always enough (see `parse_terminates`) -/
-def fuelFor (t : Text) : Nat := 8 * (t.length + 1)
+def fuelFor (t : Text) : Nat := 8 * (t.length + 2)
 
 /-- `KlongInterpreter.prog(text)` in a fresh parser state -/
 def parseWith (cfg : Cfg) (fuel : Nat) (m : PState) (t : Text) : Res (List Node) := prog cfg t fuel 0 false m
